@@ -148,7 +148,9 @@ def run(rep: Report, tier: str):
                         val = n.value
                         for t in store_targets(n):
                             a = _self_attr(t)
-                            if a and a != LIST_ATTR and not (isinstance(val, ast.Constant) and val.value is None):
+                            # a cache holds something COMPUTED from the object; a flag or counter set to a literal is state of
+                            # its own kind (e.g. an 'edited' marker) and not a derived view
+                            if a and a != LIST_ATTR and not isinstance(val, ast.Constant):
                                 caches.setdefault(a, []).append(f.qualname)
                     # setattr(self, "x", v)
                     if (
@@ -480,6 +482,11 @@ def run(rep: Report, tier: str):
                 rep.ok("C14.views", f.qualname, f"self.{cache} computed from the current object", f"{f.file}:{f.line}")
             else:
                 rep.bad("C14.views", f.qualname, "not-from-self", f"{f.qualname} does not compute self.{cache} from the current object", f.file, f.line)
+    # "the serialised form is the concatenation of the current opcodes' encodings in order": the serialisers emit every
+    # opcode of the live list, unfiltered and unmodified (same structural rule as C06.concat, under this property's name)
+    from .c06 import check_concat
+
+    check_concat(repo, rep, rule="C14.views")
     # the verdict is recomputed from the current object: fresh context, no memo of earlier results
     az = repo.cls("fickling.analysis.Analyzer")
     an = az.method("analyze")
